@@ -185,6 +185,9 @@ def b_len(ev: Ev, n: ast.Call) -> Val:
 		return Val(INT, z3.Length(v.term))
 	if isinstance(v.ty, TTuple):
 		return ev.lift(len(v.ty.items))
+	if isinstance(v.ty, TDict):
+		ev.st.assume(v.ty.size(v.term) >= 0)
+		return Val(INT, v.ty.size(v.term))
 	raise EngineError(f'len of {v.ty}')
 
 
@@ -635,7 +638,7 @@ def dict_method(ev: Ev, d: Val, name: str, args: list[Val], n: ast.Call, recv_no
 		present = z3.Select(t.dom(d.term), k.term)
 		if len(args) == 1:
 			ev.exit_if(z3.Not(present), 'KeyError')
-		write_back(ev, recv_node, Val(t, t.mk(z3.Store(t.dom(d.term), k.term, z3.BoolVal(False)), t.vals(d.term))))
+		write_back(ev, recv_node, Val(t, t.mk(z3.Store(t.dom(d.term), k.term, z3.BoolVal(False)), t.vals(d.term), t.size(d.term) - z3.If(present, 1, 0))))
 		if len(args) > 1:
 			dflt = ev.coerce(args[1], t.val)
 			return Val(t.val, z3.If(present, z3.Select(t.vals(d.term), k.term), dflt.term))
